@@ -394,7 +394,7 @@ def run(chk, replay=None):
             run_and_absorb(corpus)
         # systematic enumeration under a preemption bound
         bound = 2 if tier == "quick" else 3
-        per_cfg = 2500 if tier == "quick" else 25000
+        per_cfg = 2500 if tier == "quick" else 40000
         cfgs = small_configs(tier)
         enums = {c[0]: schedlib.Enumerator(bound, per_cfg) for c in cfgs}
         counter = 0
